@@ -273,15 +273,15 @@ def siteNames (e : Expr) : List String :=
 def ksStr (ks : List String) : String := "(ks" ++ String.join (ks.map (fun k => " " ++ jq k)) ++ ")"
 
 /-- fields about Prepare: A = criteria as applied, rk/m = kinds on the real pattern and the real WHERE after Prepare -/
-def answerP (a : Expr) (rk : Option (List String)) (m : Option Expr) : String :=
+def answerP (old : Bool) (a : Expr) (rk : Option (List String)) (m : Option Expr) : String :=
   let sn := dedup (siteNames a)
   let nsites := (siteNames a).length
   let sites := "\tsites " ++ (if sn.isEmpty then "-" else ",".intercalate sn) ++ (if nsites > 1 then ",multi" else "")
-  match prepare a with
+  match (if old then prepareOld a else some (prepare a)) with
   | none => "\tpk error\tpw error\teqreal skip\teqapplied skip" ++ sites
   | some (pk, pw) =>
     let eqApplied :=
-      match prep false false true a with
+      match (if old then prepOld false false true a else some (prep false false false true true a)) with
       | some (h0, w0) =>
         let (t1, fm) := compileMeaning #[] (flattenKinds h0) w0
         let (t2, fa) := compileF t1 a
@@ -300,6 +300,7 @@ def answerP (a : Expr) (rk : Option (List String)) (m : Option Expr) : String :=
 /-! ### steps -/
 structure St where
   fixed : Bool := false
+  prepOld : Bool := false
 
 def emitter (st : St) : Expr → List Tok := if st.fixed then emit else emitOld
 
@@ -342,7 +343,8 @@ def stepE (st : St) (m r : Sexp) : String :=
       | .unmodelled t => answerE st m' none ++ "\trunmodelled " ++ t
       | .bad w => "bad-op re " ++ w
 
-/-- `e <mode> M R A RK`: as `e`, plus the Prepare fields when the applied criteria A are in the algebra -/
+/-- `e <mode> M R A RK` (mode fixed = live emitter + live Prepare, prepold = live emitter + Prepare before fix7,
+current = everything before the fixes): as `e`, plus the Prepare fields when the applied criteria A are in the algebra -/
 def stepEP (st : St) (m r a rk : Sexp) : String :=
   let base := match m with
     | .atom "none" => "nowhere"
@@ -360,7 +362,7 @@ def stepEP (st : St) (m r a rk : Sexp) : String :=
   | .atom "none" => base
   | _ =>
     match readExpr a with
-    | .ok a' => base ++ answerP a' (if mBad then none else rkv) mv
+    | .ok a' => base ++ answerP st.prepOld a' (if mBad then none else rkv) mv
     | _ => base
 
 def step (st : St) (ts : List String) : St × String :=
@@ -372,7 +374,8 @@ def step (st : St) (ts : List String) : St × String :=
     | some [.atom "e", m, r] => (st, stepE st m r)
     | some [.atom "e", .atom "fixed", m, r] => (st, stepE { st with fixed := true } m r)     -- per-line mode, no state
     | some [.atom "e", .atom "current", m, r] => (st, stepE { st with fixed := false } m r)
-    | some [.atom "e", .atom md, m, r, a, rk] => (st, stepEP { st with fixed := md == "fixed" } m r a rk)
+    | some [.atom "e", .atom md, m, r, a, rk] =>
+      (st, stepEP { st with fixed := md == "fixed" || md == "prepold", prepOld := md == "prepold" || md == "current" } m r a rk)
     | some [.atom "o", o] =>
       match readOperand o with
       | .ok o' =>
